@@ -378,3 +378,35 @@ theorem strip_doc_aux (tail : Option Bytes) (htail : TailWF tail) :
         simp
 
 end Oryx.Json
+
+namespace Oryx.Json
+open Oryx
+
+/-! ### RFC 8259 string literals are string bodies in the sense of `strBody` -/
+
+/-- One item of a JSON string: an unescaped byte (anything but `"` and `\`; UTF-8 bytes included) or a
+backslash escape `\c` (`\"`, `\\`, `\/`, `\b` … and `\u`, whose four hex digits follow as unescaped bytes). -/
+inductive StrItem where
+  | raw (b : UInt8) (h : b ≠ 34 ∧ b ≠ 92)
+  | esc (c : UInt8)
+
+def StrItem.bytes : StrItem → Bytes
+  | .raw b _ => [b]
+  | .esc c => [92, c]
+
+def strItems (items : List StrItem) : Bytes := (items.map StrItem.bytes).flatten
+
+theorem strBody_items : ∀ items : List StrItem, strBody (strItems items) = true
+  | [] => by simp [strItems, strBody]
+  | .raw b h :: rest => by
+    have ih := strBody_items rest
+    simp only [strItems, List.map_cons, List.flatten_cons, StrItem.bytes, List.cons_append, List.nil_append] at ih ⊢
+    rw [strBody_cons]
+    simp [h.1, h.2, ih]
+  | .esc c :: rest => by
+    have ih := strBody_items rest
+    simp only [strItems, List.map_cons, List.flatten_cons, StrItem.bytes, List.cons_append, List.nil_append] at ih ⊢
+    rw [strBody_cons]
+    simp [ih]
+
+end Oryx.Json
